@@ -16,7 +16,7 @@ CHECKS = {
    note=TRUST + "regexp is a trusted stub (FindStringSubmatchIndex returns nil or in-range ordered index pairs, unmatched groups -1); BackrefRegex carries an assumed contract; lexer.New is proved to establish the invariant Next starts from (rulesOK: every compiled pattern anchored, no include placeholder left), from one axiom about regexp syntax (a pattern that syntax.Parse accepts, wrapped as ^(?:p), can only match at the start); include.applyRules is proved against the RulesAction interface contract. The generated lexer template is not covered.",
    ref="DESIGN.md section 4, C07"),
  "C04": dict(level="proof",
-   text="Position.Advance is proved to map an exact (offset,line,column) position of an input text to the exact position after the span, from eight trusted string axioms applied as ground instances; StatefulLexer.Next is proved (for every input text given as a ghost parameter) to keep data == input[offset:], to emit tokens whose value is exactly input[pos.Offset : pos.Offset+len(value)] with exact line/column and the caller's filename, contiguous with the lexer position, monotone offsets, and EOF at len(input); LexString establishes the invariant. The text/scanner-based lexer is covered by a bounded stand-in (all inputs up to 4/5 bytes over 13 bytes incl. invalid UTF-8 and NUL, four entry points).",
+   text="Position.Advance is proved to map an exact (offset,line,column) position of an input text to the exact position after the span, from eight trusted string axioms applied as ground instances; StatefulLexer.Next is proved (for every input text given as a ghost parameter) to keep data == input[offset:], to emit tokens whose value is exactly input[pos.Offset : pos.Offset+len(value)] with exact line/column and the caller's filename, contiguous with the lexer position, monotone offsets, and EOF at len(input); LexString establishes the invariant. The text/scanner-based lexer is covered by a bounded stand-in (all inputs up to 4/5 bytes over 13 bytes incl. invalid UTF-8 and NUL, four entry points); the stateful definition's reader entry point by another (3 definitions x all inputs up to 4/5 characters x 7 ways a reader may deliver its bytes, incl. data together with io.EOF, plus a failing reader).",
    note=TRUST + "String axioms (count/lastIndex/runeCount over concatenation) are trusted and conformance-tested in the thorough tier; spans produced by regexp are assumed to end on rune boundaries (regexpSpanCut). Strictly-increasing offsets and 'concatenation equals input' over a whole run follow by induction over calls from the per-call contract (paper lemma). text/scanner-based and generated lexers are not covered.",
    ref="DESIGN.md section 4, C04"),
  "C03": dict(level="proof",
@@ -43,11 +43,11 @@ CHECKS.update({
    note=TRUST + "The reflection-based field writes (maybeInject*) are opaque; what is proved is the value handed to them. Nesting/disjointness over a whole tree is a paper lemma from monotonicity.",
    ref="DESIGN.md section 4, C11"),
  "C06": dict(level="proof",
-   text="Panic-freedom (index, slice, nil, type-assertion, explicit panic obligations) and error shape for the runtime functions under contract: all PeekingLexer operations, StatefulLexer.Next, every node's Parse, parseContext methods, parseInto/parseOne/getElidedTypes: a non-nil error is a participle.Error or comes from user code (errOK, carried through deepestError bookkeeping), lexer token positions are exact (shared with C04), the lexing functions are non-recursive (bounded stack). FormatError, lexer.formatError and the Error() methods are proved to produce [file:]line:col: + space + message whenever a position is known. The text/scanner-based lexer's errors (located, consistent line/column), the stack needed by long flat inputs (100 000-200 000 tokens under a 16 MiB stack cap) and captures into Capture / TextUnmarshaler fields are explored by bounded stand-ins.",
+   text="Panic-freedom (index, slice, nil, type-assertion, explicit panic obligations) and error shape for the runtime functions under contract: all PeekingLexer operations, StatefulLexer.Next, every node's Parse, parseContext methods, parseInto/parseOne/getElidedTypes: a non-nil error is a participle.Error or comes from user code (errOK, carried through deepestError bookkeeping), lexer token positions are exact (shared with C04), the lexing functions are non-recursive (bounded stack). FormatError, lexer.formatError and the Error() methods are proved to produce [file:]line:col: + space + message whenever a position is known. The text/scanner-based lexer's errors (located, consistent line/column), the stack needed by long flat inputs (100 000-200 000 tokens under a 16 MiB stack cap) captures into Capture / TextUnmarshaler fields and failures inside union members registered by pointer and by value (all token sequences up to 5/6 tokens, three lookaheads) are explored by bounded stand-ins. A union is proved to hand up no value when it fails, strct.Parse to hand up the expression's or the conversion's own error.",
    note=TRUST + "Not decided: recursion depth of the parser proper and 'never hangs' beyond the per-loop measures. Assumed: the root type's node exists in the parser's type table and is well-formed; disjunction's documented 'did not progress' panic is excluded by the property's premise; Build is proved to validate every Elide() name against the symbol table of the parser's lexer, through the mapping wrapper (the Parser invariant getElidedTypes relies on; assumed at the entry points, established by the constructor).",
    ref="DESIGN.md section 4, C06"),
  "C01": dict(level="proof",
-   text="Operator-local obligations only: leaves match exactly their predicate (C10); sequence runs children in list order on the same context, first-child non-match leaves everything untouched, a later one is an UnexpectedTokenError; disjunction/union try alternatives in index order on fresh branches and adopt exactly the first success; group iterates on fresh branches; negation/lookahead test on a branch (negation then takes exactly one token); capture defers exactly once iff its child produced a value; Stop's exact threshold; parseOne's trailing-token rule. The global equality 'parse result == denotational meaning' is NOT claimed. Build is proved to leave the lookahead and lexer the options chose in force, parseModifier to wrap its operand in a fresh group of exactly the modifier's mode without altering the operand, a '!' group to succeed only after consuming input, setCaseInsensitiveTokens to mark every token type whose symbol was declared case-insensitive. The whole-run statement is additionally decided within a bound by the grammar-meaning differential (bounded stand-in in the same evidence file, never counted as proved): every small grammar x input x lookahead is run through the real parser and through a reference interpreter of the ordered-choice, bounded-backtracking meaning written from the property text.",
+   text="Operator-local obligations only: leaves match exactly their predicate (C10); sequence runs children in list order on the same context, first-child non-match leaves everything untouched, a later one is an UnexpectedTokenError; disjunction/union try alternatives in index order on fresh branches and adopt exactly the first success; group iterates on fresh branches; negation/lookahead test on a branch (negation then takes exactly one token); capture defers exactly once iff its child produced a value; Stop's exact threshold; the trailing-token rule of parseOne and rootParseable in both directions (success iff the next non-elided token is EOF or trailing input is allowed). The global equality 'parse result == denotational meaning' is NOT claimed. Build is proved to leave the lookahead and lexer the options chose in force, parseModifier to wrap its operand in a fresh group of exactly the modifier's mode without altering the operand, a '!' group to succeed only after consuming input, setCaseInsensitiveTokens to mark every token type whose symbol was declared case-insensitive. The whole-run statement is additionally decided within a bound by the grammar-meaning differential (bounded stand-in in the same evidence file, never counted as proved): every small grammar x input x lookahead is run through the real parser and through a reference interpreter of the ordered-choice, bounded-backtracking meaning written from the property text.",
    note=TRUST + "Composition of the operator contracts into the whole-grammar meaning is not machine-checked; setField/conform value semantics are under C17.",
    ref="DESIGN.md section 4, C01"),
 })
@@ -66,7 +66,7 @@ CHECKS.update({
    note=TRUST + "strconv.UnquoteChar and strings.ToUpper are function stubs; that strconv.Quote output is accepted by this decoding is strconv's own inverse property (assumed). User mappers are assumed to be functions of their token.",
    ref="DESIGN.md section 4, C18"),
  "C19": dict(level="proof",
-   text="Panic-freedom of the struct-tag front end for well-formedness: every parse function of grammar.go is proved to return, on success, a node whose child slots are all non-nil and well-formed (wfc), so that no nil operand reaches visit/validate/buildEBNF/Parse (this is where 'modifier, capture or negation applied to nothing' is rejected); index and slice expressions of GetField, textScannerTransform and the tag lexer are in bounds; the scanner error callback keeps 'literal not terminated'. parseType and indirectType are under contract too: reflect's own preconditions (Elem only on Array/Chan/Map/Pointer/Slice kinds, Implements only with an interface type) are obligations. Totality over tag texts and field types is additionally explored by the bounded Build-totality stand-in (307 000 struct types built with reflect.StructOf against a reference recogniser of the documented tag syntax, plus a zoo of 42 field types; bounded, never counted as proved).",
+   text="Panic-freedom of the struct-tag front end for well-formedness: every parse function of grammar.go is proved to return, on success, a node whose child slots are all non-nil and well-formed (wfc), so that no nil operand reaches visit/validate/buildEBNF/Parse (this is where 'modifier, capture or negation applied to nothing' is rejected); index and slice expressions of GetField, textScannerTransform and the tag lexer are in bounds; the scanner error callback keeps 'literal not terminated'. parseType and indirectType are under contract too: reflect's own preconditions (Elem only on Array/Chan/Map/Pointer/Slice kinds, Implements only with an interface type) are obligations. Totality over tag texts and field types is additionally explored by the bounded Build-totality stand-in (307 000 struct types built with reflect.StructOf against a reference recogniser of the documented tag syntax, plus token-free fields between the pieces, a zoo of 45 field types and misused options; bounded, never counted as proved). The tag lexer's Next is proved to return EOF only after the last field. collectFieldIndexes (append on shared backing arrays, reflection) is explored by the bounded field-index-paths stand-in: every struct shape with up to 2+2 grammar fields around an embedded struct, nested 3/4 deep, against an independent walk.",
    note=TRUST + "structLexer.Peek/Next, parseType and indirectType carry assumed contracts; wfc introduction rules and the list-segment rules for sequences are axioms; termination of the recursive-descent tag parser and completeness ('every documented grammar builds') are not decided.",
    ref="DESIGN.md section 4, C19"),
 })
@@ -75,14 +75,14 @@ BOUNDED_TECH = "bounded stand-in of a contract the VC generator cannot reach: th
 CHECKS.update({
  "C08": dict(level="exploration", technique=BOUNDED_TECH,
    text="Bounded stand-in (not proof): validate() is compared with the specification 'some reachable production can re-enter itself before consuming a token' (nullable / first-position sets computed as least fixed points, with ~ and lookahead bodies entered without consuming) on every grammar of a finite family of node graphs built directly in-package: tens of thousands of grammars, exhaustively. isLeftRecursive steers a closure-based traversal over a cyclic graph and is outside the VC generator's reach.",
-   note="Bound: one production with <= 4 (thorough 5) nodes, two productions with <= 3 nodes each (thorough 3 and 4), over literal, production reference, sequence, choice, ? * + !, ~, (?= ), (?! ), capture, redundant parentheses. The consequence 'recursion depth bounded by input length' is a paper lemma. The oracle is an independent fixed-point formulation.",
+   note="Bound: one production with <= 4 (thorough 5) nodes, two productions with <= 3 nodes each (thorough 3 and 4), over literal, production reference, a union-typed reference, sequence, choice, ? * + !, ~, (?= ), (?! ), capture, redundant parentheses. The consequence 'recursion depth bounded by input length' is a paper lemma. The oracle is an independent fixed-point formulation.",
    ref="DESIGN.md section 4, C08"),
  "C14": dict(level="exploration", technique=BOUNDED_TECH,
    text="Bounded stand-in (not proof): for every grammar of the same finite family (plus a literal that needs escaping) Parser.String() is parsed with the ebnf package; root first, each reachable production defined once, literal / reference / operator counts equal to the grammar's, and print(parse(text)) parses to an equal tree. Language membership and tree equality after a print/parse cycle are not first-order contracts over the printer's code.",
    note="Bound as for C08 (two productions: <= 2 and <= 3 nodes; thorough: one production <= 5, two <= 3 and <= 3). The family includes redundant parentheses; seven further grammars are built with Build from struct tags (union root, union field, anonymous and embedded struct types, ( x* )?, Parseable and custom productions) and checked for the same criteria.",
    ref="DESIGN.md section 4, C14"),
  "C16": dict(level="exploration", technique=BOUNDED_TECH,
-   text="Bounded stand-in (not proof): for every rule map of a finite family (all action kinds, include nesting, return, back-references, names and patterns with quotes, backslashes, <>& and non-ASCII) the rule set and the built definition are marshalled to JSON, unmarshalled and rebuilt; rule sets must be structurally equal, symbol tables equal, and token streams / errors equal on 12 inputs. encoding/json's behaviour cannot usefully be axiomatised for contracts.",
+   text="Bounded stand-in (not proof): for every rule map of a finite family (all action kinds, include nesting, return, back-references, names and patterns with quotes, backslashes, <>& and non-ASCII) the rule set and the built definition are marshalled to JSON, unmarshalled and rebuilt; rule sets must be structurally equal, symbol tables equal, and token streams / errors equal on 16 inputs; the caller's rule map is edited after New and before the definition is marshalled (the definition owns what it serialises). encoding/json's behaviour cannot usefully be axiomatised for contracts.",
    note="Bound: states Root (1-2 rules over a 9-rule alphabet; thorough 16), A (1-3 rules over a reduced alphabet), thorough adds B. That equal compiled tables give equal behaviour on every input follows from StatefulLexer.Next's contract (C03), which is proved.",
    ref="DESIGN.md section 4, C16"),
  "C09": dict(level="other", technique="frame obligations of the contract framework (deductive, for the 54 runtime functions under contract) + a static provenance scan of every write site reachable at run time + bounded coherence check of the one shared cache; no schedule is explored",
